@@ -240,7 +240,17 @@ vacation "r"; set "x" "y"; redirect :copy "c@d"; fileinto :create "y"; keep :fla
     b"""if anyof (true, false, true) { keep; keep; }
 if allof (not false, not false, anyof (exists ["a", "a"], exists ["a", "a"])) { if true { stop; } if true { stop; } }
 elsif anyof (header :is "a" "b", header :is "a" "b") { discard; discard; }""",
+    # comment look-alikes inside multi-line strings (only explored in the modes of CORPUS_MODES)
+    b"""reject text:
+see /* this */ and # that
+.
+;
+if true { vacation :mime text:
+/* only a comment */
+.
+; }""",
 ]
+CORPUS_MODES = {7: ("c03",)}
 EOL_CHOICES = [b"\n", b"\r\n"]
 
 
